@@ -30,3 +30,7 @@ macro "c06_norm" : tactic => `(tactic| simp only [ok_bind, pure_bind', error_bin
 macro "c06_finish" : tactic => `(tactic| (
     repeat' split
     all_goals (first | rfl | omega | (simp only [Except.ok.injEq, Option.some.injEq]; omega))))
+
+/-- closes `f a 0 = .ok none` (and similar closed evaluations) after the definitions are unfolded, whatever normal form
+the control flow has -/
+macro "c06_zero" : tactic => `(tactic| first | rfl | (c06_norm <;> (first | rfl | ((repeat' split) <;> (first | rfl | omega)))))
